@@ -10,4 +10,5 @@ uint64_t conf_trace_digest(int from);
 int conf_trace_count(void);
 void conf_set_index_checks(int on);
 void conf_fill_dir(const plan_t *p);
+void conf_env_setup(const plan_t *p);
 #endif
